@@ -112,6 +112,14 @@ def run(ck):
         ck.verdict(bad is None, "1", "T2-all-exits", b, "Ok=>signalfd-mask-updated", "every successful return has updated the signalfd's mask", "%s can return Ok without updating the signalfd's mask: the source keeps (not) reporting signals whose configuration changed" % q, site=b.where())
         bad = T.t2_all_exits(b, [0], [c.bb for c in thread_calls + delegated], exits=rets)
         ck.verdict(bad is None, "1", "T2-all-exits", b, "Ok=>thread-mask-updated", "every successful return has updated the thread's signal mask", "%s can return Ok without updating the thread's signal mask" % q, site=b.where())
+        # the bookkeeping never runs ahead of the thread mask: once self.mask has been changed in place, no exit - error
+        # exits included - is reached before the thread mask has at least been attempted (a fallible step between the
+        # two, e.g. a validation inside the loop that adds the signals, leaves signals recorded that are neither blocked
+        # nor in the signalfd; the next successful call then blocks signals its caller never asked for)
+        muts = [c for nm in ("add", "remove", "clear", "extend") for c in sigcalls(b, nm) if c.args and set_id(b, c.args[0]) == ("self.mask",)]
+        for c in muts:
+            bad = T.t2_all_exits(b, [c.to], [x.bb for x in thread_calls + delegated]) if c.to is not None else None
+            ck.verdict(bad is None, "1", "T2-all-exits", b, "self.mask-changed=>thread-mask-attempted", "after self.mask was changed in place every exit, error exits included, has gone through the thread-mask call", "%s can return (with an error) after having changed self.mask but before touching the thread mask: the recorded set contains signals that are neither blocked nor reported" % q, site=b.where(c.bb), path=path_descr(b, bad) if bad else None)
         final_ids = set()
         for c in sm:
             sid = set_id(b, c.args[1])
